@@ -16,6 +16,8 @@ use std::path::{Path, PathBuf};
 use super::{payloads, P};
 use zverif::Tier;
 
+#[path = "p_audit.rs"]
+mod p_audit;
 #[path = "p_compression.rs"]
 mod p_compression;
 #[path = "p_entropy.rs"]
@@ -211,6 +213,8 @@ pub fn all(tier: Tier) -> Vec<P> {
     v.extend(p_entropy::all(tier));
     v.extend(p_compression::all(tier));
     v.extend(p_stores::all(tier));
+    // coverage audit: appended last (the shard assignment of the earlier parsers does not depend on the order, their names do not change)
+    v.extend(p_audit::all(tier));
     // subject names are identities: they must be unique
     let mut names: Vec<&str> = v.iter().map(|p| p.name).collect();
     names.sort_unstable();
